@@ -84,6 +84,7 @@ var builtinFunctions = map[XmlName]Function{
 	{"", "string-length"}:    stringLengthDispatch.build(),
 	{"", "normalize-space"}:  normalizeSpaceDispatch.build(),
 	{"", "translate"}:        translate,
+	{"", "boolean"}:          boolean,
 	{"", "not"}:              not,
 	{"", "true"}:             true0,
 	{"", "false"}:            false0,
@@ -381,6 +382,14 @@ func translate(context Context, args ...Result) (Result, error) {
 	}
 
 	return String(ret.String()), nil
+}
+
+func boolean(context Context, args ...Result) (Result, error) {
+	if len(args) != 1 {
+		return nil, errBadArgs
+	}
+
+	return Bool(args[0].Bool()), nil
 }
 
 func not(context Context, args ...Result) (Result, error) {
